@@ -4,6 +4,8 @@ CONSTANTS
   CanonOf <- ScalarCanonAll
   PyOf <- ScalarPy
   KeyMode = "exact"
+  Lossy = "reject"
+  WrapOf <- NoWrap
   MaxOps = 4
   MaxPickles = 1
   Label = "scalar"
